@@ -701,7 +701,66 @@ var yieldHook func(site string)
 // SetYieldHook installs the scheduler callback that the instrumented program
 // calls before every channel send and at the start of every goroutine it
 // starts. nil removes it.
-func SetYieldHook(f func(site string)) { yieldHook = f }
+func SetYieldHook(f func(site string)) {
+	yieldHook = f
+	gMu.Lock()
+	gSeq, gKeys = 0, map[int64]int64{}
+	gMu.Unlock()
+}
+
+// Goroutine identity for the scheduler. The parent draws a number when it executes a go statement
+// (Spawn: exactly one goroutine of the code under test runs at a time, so the numbering is the same
+// on every run) and the child adopts it first thing (Enter). The scheduler orders goroutines parked at
+// the same site by that number, not by the order in which they happened to arrive.
+var (
+	gMu   sync.Mutex
+	gSeq  int64
+	gKeys = map[int64]int64{}
+)
+
+// Spawn is called by the parent just before a go statement.
+func Spawn() int64 {
+	if yieldHook == nil {
+		return 0
+	}
+	gMu.Lock()
+	defer gMu.Unlock()
+	gSeq++
+	return gSeq
+}
+
+// Enter is the first statement of every goroutine the code under test starts.
+func Enter(id int64) {
+	if yieldHook == nil || id == 0 {
+		return
+	}
+	g := goid()
+	gMu.Lock()
+	gKeys[g] = id
+	gMu.Unlock()
+}
+
+// GKey is the number of the calling goroutine (0: not started by the code under test).
+func GKey() int64 {
+	g := goid()
+	gMu.Lock()
+	defer gMu.Unlock()
+	return gKeys[g]
+}
+
+// goid reads the runtime's goroutine id from the first line of the stack trace ("goroutine 123 [").
+func goid() int64 {
+	var buf [64]byte
+	n := runtime.Stack(buf[:], false)
+	var id int64
+	for _, c := range buf[len("goroutine "):n] {
+		if c < '0' || c > '9' {
+			break
+		}
+		id = id*10 + int64(c-'0')
+	}
+	return id
+}
 
 // Yield is the schedule point the instrumenter inserts (rule R7). Without a
 // hook it does nothing.
@@ -767,6 +826,7 @@ func (m *Mutex) Lock() {
 	m.waiters = append(m.waiters, ch)
 	m.mu.Unlock()
 	<-ch
+	Yield("sync.Mutex.Lock+")
 }
 
 func (m *Mutex) TryLock() bool {
@@ -821,6 +881,7 @@ func (m *RWMutex) Lock() {
 	m.q = append(m.q, rwWaiter{ch, true})
 	m.mu.Unlock()
 	<-ch
+	Yield("sync.RWMutex.Lock+")
 }
 
 func (m *RWMutex) Unlock() {
@@ -846,6 +907,7 @@ func (m *RWMutex) RLock() {
 	m.q = append(m.q, rwWaiter{ch, false})
 	m.mu.Unlock()
 	<-ch
+	Yield("sync.RWMutex.RLock+")
 }
 
 func (m *RWMutex) RUnlock() {
